@@ -45,7 +45,11 @@ TAIL = "P 0 ; %s ; P 0 ; T 0 ; K 0 ; W 0 -1 ; T 0 ; K 0 ; D 0"
 _sites_cache = {}
 
 
-def script_for(name, opts, faults, r, natural=False):
+TAIL_NORESTART = "P 0 ; D 0"
+TAIL_FAILAGAIN = "P 0 ; %s ; P 0 ; D 0"
+
+
+def script_for(name, opts, faults, r, natural=False, tail=0):
     mask = r.choice([0, 0x4002, 0x7fffbeff & ~(1 << 8), 0x200])  # never block SIGKILL/SIGSTOP bits needlessly
     pre = PRELUDE % (r.randrange(1000), mask, r.randrange(3), r.randrange(3), r.randrange(3))
     ftok = " ; ".join("F %d %s %d %d" % f for f in faults)
@@ -55,7 +59,12 @@ def script_for(name, opts, faults, r, natural=False):
     parts = [pre]
     if ftok:
         parts.append(ftok)
-    parts += ["N 0", s1, TAIL % s1]
+    if tail == 1:
+        parts += ["N 0", s1, TAIL_NORESTART]
+    elif tail == 2:
+        parts += ["N 0", s1, TAIL_FAILAGAIN % start_tokens(0, {"prog": "missing", "out": 7, "pathmode": "missing"})]
+    else:
+        parts += ["N 0", s1, TAIL % s1]
     return " ; ".join(parts), mask
 
 
@@ -88,6 +97,52 @@ def discover_sites(scen_bin, vchild, name, opts):
             break
     import shutil
     shutil.rmtree(scratch, ignore_errors=True)
+    _sites_cache[key] = sites
+    return sites
+
+
+OPS_SCENARIOS = [
+    ("pollwait", "N 0 ; S 0 err=1 nb=1 stop=3:-1:0:0:0:0 ; E 0 5 W 1 100 ; E 0 15 W 2 10 ; E 0 45 X 3 ; PL 10 1 0 15 ; RD 0 1 50 ; "
+                 "PL 0 1 0 6 ; W 0 10 ; RD 0 2 50 ; WR 0 10 ; W 0 100 ; W 0 0 ; D 0"),
+    ("drain", "N 0 ; S 0 err=1 text=1 stop=3:-1:0:0:0:0 ; E 0 5 W 1 5000 ; E 0 15 W 2 100 ; E 0 25 X 0 ; DR 0 s3 c ; ST 0 1 100 0 0 0 0 ; D 0"),
+    ("stopdestroy", "N 0 ; S 0 dl=30 stop=1:20:2:20:3:-1 term=ign ; CL 0 0 ; W 0 -2 ; D 0"),
+    ("runex", "N 0 ; E 0 5 W 1 300 ; E 0 15 X 4 ; S 0 err=1 text=1 runex=s0,c"),
+]
+
+
+def discover_op_sites(scen_bin, vchild, name, script):
+    key = "ops-" + name
+    if key in _sites_cache:
+        return _sites_cache[key]
+    env = dict(os.environ)
+    env.update(SAN_ENV)
+    scratch = os.path.join(BUILD, "run", "disc.%d" % os.getpid())
+    p = subprocess.run([scen_bin, vchild, scratch, "--one", "traceall ; rlimit 64 ; " + script], stdout=subprocess.PIPE,
+                       stderr=subprocess.DEVNULL, env=env)
+    sites = []
+    started = False
+    for line in p.stdout.decode("utf-8", "replace").splitlines():
+        try:
+            d = json.loads(line)
+        except ValueError:
+            continue
+        if "op" not in d:
+            continue
+        if d["op"] == "S":
+            started = True
+            continue
+        if not started and d["op"] != "RN":
+            continue
+        for t in d.get("tr", []):
+            fn, side, k = t[0], t[1], t[2]
+            if side != 0 or fn in NOT_FAULTED or fn in ("fork", "pipe"):
+                continue
+            if d["op"] == "RN" and fn in ("fcntl", "malloc", "sigmask", "sigfillset", "strdup", "fileno", "close") :
+                continue
+            sites.append((side, fn, k))
+    import shutil
+    shutil.rmtree(scratch, ignore_errors=True)
+    sites = sorted(set(sites))
     _sites_cache[key] = sites
     return sites
 
@@ -141,10 +196,13 @@ def gen(prop, tier, seed):
         singles = []
         for s in sites:
             singles.extend(variants(s))
-        for f in singles:
+        for fi, f in enumerate(singles):
             r = rng_for(seed, "fault1", name, f)
-            script, mask = script_for(name, opts, [f], r)
-            cases.append(Case("f%d" % idx, script, {"scenario": name, "faults": [f], "mask": mask, "fork": opts.get("fork", 0)},
+            # two thirds: full tail with restart; the rest: destroy right after the (failed) start,
+            # or a second start that fails early
+            tail = [0, 0, 0, 1, 0, 2][fi % 6]
+            script, mask = script_for(name, opts, [f], r, tail=tail)
+            cases.append(Case("f%d" % idx, script, {"scenario": name, "faults": [f], "mask": mask, "fork": opts.get("fork", 0), "tail": tail},
                               "fault/%s/%s:%s:%d:%d" % ((name,) + f)))
             idx += 1
         # pairs
@@ -168,15 +226,32 @@ def gen(prop, tier, seed):
             cases.append(Case("f%d" % idx, script, {"scenario": name, "faults": [fa, fb], "mask": mask, "fork": opts.get("fork", 0)},
                               "fault/%s/%s:%s:%d:%d+%s:%s:%d:%d" % ((name,) + fa + fb)))
             idx += 1
+    if prop in ("C05", "C06"):
+        for oname, oscript in OPS_SCENARIOS:
+            sites = discover_op_sites(scen_bin, vchild, oname, oscript)
+            for s in sites:
+                for f in variants(s):
+                    if f[1] == "waitpid" and f[3] != E.EINTR:
+                        continue  # "somebody else reaped it" after a successful start is outside every property here
+                    cases.append(Case("f%d" % idx, "rlimit 64 ; F %d %s %d %d ; %s" % (f + (oscript,)),
+                                      {"scenario": "ops-" + oname, "faults": [f], "mask": 0, "ops": 1},
+                                      "fault/ops/%s/%s:%s:%d:%d" % ((oname,) + f)))
+                    idx += 1
     # natural causes (no injected fault) under a few option scenarios, and descriptor exhaustion
     for name, opts, exp in NATURAL:
-        for rep in range(3 if tier == "quick" else 20):
+        for rep in range(6 if tier == "quick" else 24):
             r = rng_for(seed, "nat", name, rep)
             o = dict(opts)
             if rep % 3 == 1:
                 o["err"] = 1
             if rep % 3 == 2:
                 o["nb"] = 1
+            if rep >= 3 and rep % 2:
+                script, mask = script_for("nat-" + name, o, [], r, tail=1 + (rep // 2) % 2)
+                cases.append(Case("f%d" % idx, script, {"scenario": "nat-" + name, "faults": [], "mask": mask, "natural": exp, "tail": 1},
+                                  "fault/nat/%s/%d/notail" % (name, rep)))
+                idx += 1
+                continue
             script, mask = script_for("nat-" + name, o, [], r)
             # the second start of the tail uses the same failing options: make it a good one
             good = start_tokens(0, {"ident": 1})
@@ -305,7 +380,7 @@ def judge(prop, case, log):
                 V("child-left-behind@" + fk, "start failed with %d but a child process is left (%s)" % (r, s1.get("kids")))
             if pops and "hang" not in pops[0] and pops[0]["ret"] != EINVAL:
                 V("pid-after-failed-start@" + fk, "reproc_pid returned %d after a failed start" % pops[0]["ret"])
-            if len(sops) > 1:
+            if len(sops) > 1 and m.get("tail", 0) == 0:
                 obs["restarts_checked"] += 1
                 s2 = sops[1]
                 if "hang" in s2:
@@ -338,8 +413,10 @@ def judge(prop, case, log):
             after = sorted((f[0], f[1], f[2]) for f in fin["fds"])
             if before != after:
                 V("fd-table-changed@" + fk, "descriptor table before %s, after %s" % (before, after))
-        if fin.get("kids") != "none":
-            V("process-left@" + fk, "a child of the runner is left after destroy (%s)" % fin.get("kids"))
+        waited_ok = any(o["op"] in ("W", "ST", "RN") and "hang" not in o and o["ret"] >= 0 for o in log.ops)
+        start_failed = "hang" not in s1 and s1["ret"] < 0 and len(sops) == 1
+        if fin.get("kids") != "none" and (waited_ok or start_failed):
+            V("process-left@" + fk, "a child is left although %s (%s)" % ("a wait succeeded" if waited_ok else "start failed", fin.get("kids")))
         for h, st, kind, isopen in fin.get("user_objs", []):
             if not isopen:
                 V("user-object-closed:%s@%s" % (kind, fk), "the %s supplied for stream %d is no longer open" % (kind, st))
